@@ -6,6 +6,11 @@ request enqueues none.
 Model: `Model/Scheduler.lean` (`create`, `exec`/`execRaw`, wasm wrappers, environment changes, `endBlock`).
 A history is an arbitrary list of `Ev`: delivered messages (create / execute by accounts and contracts,
 duplicates, failing ones, relayer outages, new snapshots, valset publication) interleaved with block ends.
+
+History-level layer (audit 1): `every_enqueued_call_is_the_jobs`, `pending_calls_are_job_calls`,
+`stored_job_is_created_request`, `id_unique_from_init` (from `State.init`), the exact effect of the accompanying
+validator-set update (`sendValset_spec`, `accompanying_valset_characterised`) and the requester-address clauses
+(`requester_address_cases`, `requester_address_entry_points`, `anonymous_caller_gets_zero_suffix`).
 -/
 import PalomaModel.Model.Scheduler
 
@@ -433,6 +438,238 @@ theorem run_jobs_prefix (s : State) (evs : List Ev) : ∃ extra, (run s evs).job
 theorem leftPad32_length (b : Bytes) (h : b.length ≤ 32) : (leftPad32 b).length = 32 := by
   unfold leftPad32; simp; omega
 
+/-! ### histories -/
+
+theorem run_append (s : State) (a b : List Ev) : run s (a ++ b) = run (run s a) b := by
+  induction a generalizing s with
+  | nil => rfl
+  | cons x xs ih => simp only [List.cons_append, run]; exact ih _
+
+/-- a result of a history = the result of some event, run on the state its prefix leads to -/
+theorem mem_results {s : State} {evs : List Ev} {r : Res} :
+    r ∈ results s evs ↔ ∃ pre e post, evs = pre ++ e :: post ∧ (stepEv (run s pre) e).2 = r := by
+  induction evs generalizing s with
+  | nil => simp [results]
+  | cons x xs ih =>
+    simp only [results, List.mem_cons]
+    constructor
+    · rintro (h | h)
+      · exact ⟨[], x, xs, rfl, h.symm⟩
+      · obtain ⟨pre, e, post, rfl, h1⟩ := ih.mp h
+        exact ⟨x :: pre, e, post, rfl, h1⟩
+    · rintro ⟨pre, e, post, heq, h1⟩
+      cases pre with
+      | nil =>
+        simp only [List.nil_append, List.cons.injEq] at heq
+        obtain ⟨rfl, rfl⟩ := heq
+        exact Or.inl h1.symm
+      | cons p ps =>
+        simp only [List.cons_append, List.cons.injEq] at heq
+        obtain ⟨rfl, rfl⟩ := heq
+        exact Or.inr (ih.mpr ⟨ps, e, post, rfl, h1⟩)
+
+theorem mem_enqueuedOn {x : String} {rs : List Res} {c : Call} :
+    c ∈ enqueuedOn x rs ↔ Res.enqueued c ∈ rs ∧ c.chain = x := by
+  induction rs with
+  | nil => simp [enqueuedOn]
+  | cons r rs ih =>
+    cases r with
+    | ok => simp [enqueuedOn, ih]
+    | rejected => simp [enqueuedOn, ih]
+    | enqueued c' =>
+      simp only [enqueuedOn]
+      split
+      · rename_i hx
+        simp only [List.mem_cons, ih, Res.enqueued.injEq]
+        constructor
+        · rintro (h | h)
+          · subst h; exact ⟨Or.inl rfl, hx⟩
+          · exact ⟨Or.inr h.1, h.2⟩
+        · rintro ⟨h | h, h2⟩
+          · exact Or.inl h
+          · exact Or.inr ⟨h, h2⟩
+      · rename_i hx
+        simp only [List.mem_cons, ih, Res.enqueued.injEq]
+        constructor
+        · rintro ⟨h, h2⟩; exact ⟨Or.inr h, h2⟩
+        · rintro ⟨h | h, h2⟩
+          · subst h; exact absurd h2 hx
+          · exact ⟨h, h2⟩
+
+theorem ofCall_enqueued {o : Option Call} {c : Call} (h : Res.ofCall o = .enqueued c) : o = some c := by
+  cases o with
+  | none => simp [Res.ofCall] at h
+  | some c' => simp only [Res.ofCall, Res.enqueued.injEq] at h; rw [h]
+
+/-- only execution requests report `enqueued`, and they are `exec` on the request they carry -/
+theorem stepEv_enqueued {s : State} {e : Ev} {call : Call} (h : (stepEv s e).2 = .enqueued call) :
+    ∃ o id sup caller, e = .op o ∧ o.request = some (id, sup, caller) ∧
+      (exec s id sup caller).2 = some call ∧ (stepEv s e).1 = (exec s id sup caller).1 := by
+  cases e with
+  | endBlock => simp [stepEv] at h
+  | op o =>
+    cases o with
+    | create i =>
+      simp only [stepEv, txStep] at h
+      split at h <;> simp at h
+    | exec id sup caller =>
+      exact ⟨_, id, sup, caller, rfl, rfl, ofCall_enqueued h, rfl⟩
+    | execWasm addr id b =>
+      simp only [stepEv, txStep] at h ⊢
+      split at h
+      · simp at h
+      · rename_i hc
+        refine ⟨_, id, .bytes b, Caller.wasm addr, rfl, rfl, ofCall_enqueued h, ?_⟩
+        rw [if_neg hc]
+    | execLegacy addr id b =>
+      simp only [stepEv, txStep] at h ⊢
+      split at h
+      · simp at h
+      · rename_i hc
+        refine ⟨_, id, .bytes b, Caller.wasm addr, rfl, rfl, ofCall_enqueued h, ?_⟩
+        rw [if_neg hc]
+    | relay ch on => simp [stepEv, txStep] at h
+    | bump ch mev => simp [stepEv, txStep] at h
+    | publish ch => simp [stepEv, txStep] at h
+
+theorem effective_chosen {j : Job} {sup : Supplied} {p : Bytes}
+    (hc : cannotModify j sup = false) (hp : effective j sup = some p) : p = chosen j sup := by
+  cases hm : j.modifiable <;> cases sup <;> simp_all [chosen, effective, cannotModify]
+
+/-! ### the validator-set scan -/
+
+@[simp] theorem isCall_call (c : Call) : QMsg.isCall (.call c) = true := rfl
+@[simp] theorem isCall_valset (k : Nat) : QMsg.isCall (.valset k) = false := rfl
+
+theorem clearValsets_spec (snap : Nat) (q : List QMsg) :
+    ((clearValsets snap q).2 = false ∧ QMsg.valset snap ∉ q ∧ (clearValsets snap q).1 = q.filter QMsg.isCall) ∨
+    ((clearValsets snap q).2 = true ∧ ∃ a b, q = a ++ QMsg.valset snap :: b ∧ QMsg.valset snap ∉ a ∧
+        (clearValsets snap q).1 = a.filter QMsg.isCall ++ QMsg.valset snap :: b) := by
+  induction q with
+  | nil => left; simp [clearValsets]
+  | cons m ms ih =>
+    cases m with
+    | valset id =>
+      by_cases hid : id = snap
+      · subst hid
+        right
+        exact ⟨by simp [clearValsets], [], ms, rfl, by simp, by simp [clearValsets]⟩
+      · rcases ih with ⟨h1, h2, h3⟩ | ⟨h1, a, b, h2, h3, h4⟩
+        · left
+          refine ⟨by simp [clearValsets, hid, h1], ?_, by simp [clearValsets, hid, h3]⟩
+          simp only [List.mem_cons, QMsg.valset.injEq, not_or]
+          exact ⟨fun h => hid h.symm, h2⟩
+        · right
+          refine ⟨by simp [clearValsets, hid, h1], .valset id :: a, b, by rw [h2]; rfl, ?_, ?_⟩
+          · simp only [List.mem_cons, QMsg.valset.injEq, not_or]
+            exact ⟨fun h => hid h.symm, h3⟩
+          · simp [clearValsets, hid, h4]
+    | call c =>
+      rcases ih with ⟨h1, h2, h3⟩ | ⟨h1, a, b, h2, h3, h4⟩
+      · left
+        exact ⟨by simp [clearValsets, h1], by simp [h2], by simp [clearValsets, h3, List.filter_cons]⟩
+      · right
+        refine ⟨by simp [clearValsets, h1], .call c :: a, b, by rw [h2]; rfl, by simp [h3], ?_⟩
+        simp [clearValsets, h4, List.filter_cons]
+
+/-- when `justInTimeValsetUpdate` rewrites the queue, and to what -/
+theorem jit_queue (snap : Nat) (c : Chain) :
+    (jit snap c).1.queue =
+      if snap ≠ 0 ∧ (∃ k, c.onChain = some k ∧ k ≠ snap) ∧ c.active = true ∧ pick snap c false = true
+      then sendValset snap c.queue else c.queue := by
+  by_cases h0 : snap = 0
+  · simp [jit, h0]
+  · cases hoc : c.onChain with
+    | none => simp [jit, h0, hoc]
+    | some k =>
+      by_cases hk : k = snap
+      · subst hk; simp [jit, h0, hoc]
+      · by_cases ha : c.active = true
+        · by_cases hp : pick snap c false = true
+          · simp [jit, h0, hoc, hk, ha, hp]
+          · simp [jit, h0, hoc, hk, ha, hp]
+        · simp [jit, h0, hoc, hk, ha]
+
+theorem sendValset_exact (snap : Nat) (q : List QMsg) :
+    (QMsg.valset snap ∉ q → sendValset snap q = q.filter QMsg.isCall ++ [.valset snap]) ∧
+    (QMsg.valset snap ∈ q → ∃ a b, q = a ++ QMsg.valset snap :: b ∧ QMsg.valset snap ∉ a ∧
+        sendValset snap q = a.filter QMsg.isCall ++ QMsg.valset snap :: b) := by
+  rcases clearValsets_spec snap q with ⟨h1, h2, h3⟩ | ⟨h1, a, b, h2, h3, h4⟩
+  · refine ⟨fun _ => ?_, fun hm => absurd hm h2⟩
+    simp [sendValset, h1, h3]
+  · refine ⟨fun hn => absurd (by rw [h2]; simp) hn, fun _ => ⟨a, b, h2, h3, ?_⟩⟩
+    simp [sendValset, h1, h4]
+
+theorem sendValset_mem (snap : Nat) (q : List QMsg) :
+    QMsg.valset snap ∈ sendValset snap q ∧
+    (∀ m ∈ sendValset snap q, m ∈ q ∨ m = .valset snap) ∧
+    (∀ m ∈ q, m ∈ sendValset snap q ∨ ∃ k, m = .valset k ∧ k ≠ snap) := by
+  by_cases hin : QMsg.valset snap ∈ q
+  · obtain ⟨a, b, hq, hna, hs⟩ := (sendValset_exact snap q).2 hin
+    rw [hs]
+    refine ⟨by simp, ?_, ?_⟩
+    · intro m hm
+      rw [List.mem_append, List.mem_cons] at hm
+      rw [hq]
+      rcases hm with hm | hm | hm
+      · exact Or.inl (by simp [(List.mem_filter.mp hm).1])
+      · exact Or.inr hm
+      · exact Or.inl (by simp [hm])
+    · intro m hm
+      rw [hq, List.mem_append, List.mem_cons] at hm
+      rcases hm with hm | hm | hm
+      · cases m with
+        | call c => left; simp [List.mem_filter, hm]
+        | valset k =>
+          right
+          exact ⟨k, rfl, fun hk => hna (hk ▸ hm)⟩
+      · left; simp [hm]
+      · left; simp [hm]
+  · have hs := (sendValset_exact snap q).1 hin
+    rw [hs]
+    refine ⟨by simp, ?_, ?_⟩
+    · intro m hm
+      rw [List.mem_append, List.mem_singleton] at hm
+      rcases hm with hm | hm
+      · exact Or.inl (List.mem_filter.mp hm).1
+      · exact Or.inr hm
+    · intro m hm
+      cases m with
+      | call c => left; simp [List.mem_filter, hm]
+      | valset k =>
+        right
+        exact ⟨k, rfl, fun hk => hin (hk ▸ hm)⟩
+
+/-- a successful execution, in the vocabulary of the property -/
+theorem exec_fromJob (s : State) (id : Bytes) (sup : Supplied) (caller : Caller) (call : Call)
+    (h : (exec s id sup caller).2 = some call) :
+    ∃ j, findJob s.jobs id = some j ∧ call.fromJob j ∧
+      call.sender = caller.sender ∧ call.contractAddr = caller.contract ∧
+      call.payload = chosen j sup ++ leftPad32 caller.bytes ∧ caller.bytes.length ≤ 32 ∧
+      cannotModify j sup = false ∧ effective j sup = some (chosen j sup) := by
+  obtain ⟨j, c, p, hj, _, hcm, hp, hlen, _, hcall, _⟩ := exec_some s id sup caller call h
+  have hpc := effective_chosen hcm hp
+  subst hpc
+  subst hcall
+  refine ⟨j, hj, ⟨rfl, rfl, rfl, rfl, chosen j sup, caller.bytes, rfl, hlen, rfl, leftPad32_length _ hlen, ?_⟩,
+    rfl, rfl, rfl, hlen, hcm, hp⟩
+  intro hm
+  simp [chosen, hm]
+
+theorem job_from_create (s : State) (evs : List Ev) (j : Job) (h : j ∈ (run s evs).jobs) :
+    j ∈ s.jobs ∨ ∃ pre i post, evs = pre ++ Ev.op (.create i) :: post ∧ vetJob (run s pre).jobs i = some j := by
+  induction evs generalizing s with
+  | nil => exact Or.inl h
+  | cons e es ih =>
+    rcases ih (stepEv s e).1 h with h1 | ⟨pre, i, post, rfl, hv⟩
+    · rcases stepEv_jobs s e with h2 | ⟨i, j', rfl, hv, h2⟩
+      · left; rw [← h2]; exact h1
+      · rw [h2, List.mem_append, List.mem_singleton] at h1
+        rcases h1 with h1 | rfl
+        · exact Or.inl h1
+        · exact Or.inr ⟨[], i, es, rfl, hv⟩
+    · exact Or.inr ⟨e :: pre, i, post, rfl, hv⟩
+
 end Lemmas
 
 /-! ## Property theorems (C17) -/
@@ -689,6 +926,250 @@ theorem inject_injective (p₁ p₂ c₁ c₂ r : Bytes) (hlen : c₁.length = c
   · rw [← ht1, ← ht2, hp]
   · rw [← hd1, ← hd2, hp, hlen]
 
+/-! ### history level -/
+
+/-- **id_unique** without a hypothesis: from a chain start (`State.init`: no jobs, arbitrary environment) the
+stored job ids are pairwise distinct after every history. -/
+theorem id_unique_from_init (order : List String) (chain : Env) (snap : Nat) (evs : List Ev) :
+    ((run (State.init order chain snap) evs).jobs.map (·.id)).Nodup :=
+  id_unique _ evs (by simp [State.init])
+
+/-- **job_fields_immutable**, provenance: every job in the store after a history from a chain start was put
+there by a successful create event of that history, with exactly the fields of that request (`vetJob` /
+`create_stores_request`: owner = creator, chain, definition, payload, flags), and is found under its id. -/
+theorem stored_job_is_created_request (order : List String) (chain : Env) (snap : Nat) (evs : List Ev) (j : Job)
+    (h : j ∈ (run (State.init order chain snap) evs).jobs) :
+    (∃ pre i post, evs = pre ++ Ev.op (.create i) :: post ∧
+      vetJob (run (State.init order chain snap) pre).jobs i = some j ∧
+      j.id = i.id ∧ j.owner = i.owner ∧ j.chain = i.chain ∧ i.defn = some (j.contract, j.abi) ∧
+      i.payload = some j.payload ∧ j.modifiable = i.modifiable ∧ j.mev = i.mev) ∧
+    findJob (run (State.init order chain snap) evs).jobs j.id = some j := by
+  constructor
+  · rcases job_from_create _ evs j h with h1 | ⟨pre, i, post, heq, hv⟩
+    · simp [State.init] at h1
+    · obtain ⟨_, _, _, _, _, _, h7, h8, h9, h10, h11, h12, h13⟩ := vetJob_some _ i j hv
+      exact ⟨pre, i, post, heq, hv, h9, h10, h11, h7, h8, h12, h13⟩
+  · have hnd := id_unique_from_init order chain snap evs
+    generalize (run (State.init order chain snap) evs).jobs = jobs at h hnd
+    induction jobs with
+    | nil => cases h
+    | cons x xs ih =>
+      simp only [List.map_cons, List.nodup_cons] at hnd
+      rcases List.mem_cons.mp h with rfl | hx
+      · simp [findJob]
+      · have hne : x.id ≠ j.id := fun he => hnd.1 (he ▸ List.mem_map.mpr ⟨j, hx, rfl⟩)
+        have : findJob (x :: xs) j.id = findJob xs j.id := by
+          simp [findJob, hne]
+        rw [this]
+        exact ih hx hnd.2
+
+/-- **every_enqueued_call_is_the_jobs** (history form of "each successful execution request enqueues exactly one
+contract-call message on the job's target chain … that calls the job's contract with the job's stored payload —
+or the caller-supplied payload if and only if the job was created as payload-modifiable — followed by the 32-byte
+left-padded address of the account or contract that requested the execution").  Cut ANY history anywhere; if the
+next event reports `enqueued call`, then
+
+* the event is an execution request (`MsgExecuteJob` / keeper call, wasm binding, legacy binding) for a job `j`
+  stored under the requested id at that moment — and still stored, unchanged, at the end of the history;
+* `call` is on `j`'s chain, for `j`'s contract with `j`'s ABI and MEV flag, names the requester in
+  `SenderAddress` / `ContractAddress`, and its payload is `chosen j sup` (the stored payload for a fixed job,
+  the supplied bytes for a modifiable job that was handed bytes, the stored payload for a modifiable job that
+  was handed nothing) followed by exactly 32 bytes: the left-padded requester address;
+* a fixed job was handed nothing (`cannotModify = false`); a modifiable one was not handed an unparsable document;
+* the pending contract calls of `j`'s chain grow by exactly this one call at the end, those of every other
+  chain do not change. -/
+theorem every_enqueued_call_is_the_jobs (s : State) (pre : List Ev) (e : Ev) (post : List Ev) (call : Call)
+    (h : (stepEv (run s pre) e).2 = .enqueued call) :
+    ∃ o id sup caller j, e = .op o ∧ o.request = some (id, sup, caller) ∧
+      findJob (run s pre).jobs id = some j ∧ findJob (run s (pre ++ e :: post)).jobs id = some j ∧
+      call.fromJob j ∧ call.sender = caller.sender ∧ call.contractAddr = caller.contract ∧
+      call.payload = chosen j sup ++ leftPad32 caller.bytes ∧ (leftPad32 caller.bytes).length = 32 ∧
+      cannotModify j sup = false ∧ (j.modifiable = true → sup ≠ .empty ∧ sup ≠ .bad) ∧
+      callsOn (stepEv (run s pre) e).1 j.chain = callsOn (run s pre) j.chain ++ [call] ∧
+      ∀ x, x ≠ j.chain → callsOn (stepEv (run s pre) e).1 x = callsOn (run s pre) x := by
+  obtain ⟨o, id, sup, caller, he, hreq, hex, _⟩ := stepEv_enqueued h
+  obtain ⟨j, hj, hfrom, hs, hc, hpay, hlen, hcm, heff⟩ := exec_fromJob _ id sup caller call hex
+  refine ⟨o, id, sup, caller, j, he, hreq, hj, ?_, hfrom, hs, hc, hpay, leftPad32_length _ hlen, hcm, ?_, ?_, ?_⟩
+  · rw [run_append]
+    exact job_fields_immutable _ _ _ _ hj
+  · intro hm
+    constructor <;> (intro hb; subst hb; simp [effective, hm] at heff)
+  · rw [stepEv_calls, h]
+    simp [enqueuedOn, hfrom.1]
+  · intro x hx
+    rw [stepEv_calls, h]
+    have : ¬ call.chain = x := by rw [hfrom.1]; exact fun he => hx he.symm
+    simp [enqueuedOn, this]
+
+/-- **pending_calls_are_job_calls** (the queue after any history): every contract call pending on chain `x`
+after a history was pending before it, or it is on `x` and calls a job that is in the store at the end of the
+history — that job's chain, contract, ABI, MEV flag, and (for a fixed job) that job's stored payload, followed
+by the 32-byte left-padded address the message itself names as requester (`Call.fromJob`). -/
+theorem pending_calls_are_job_calls (s : State) (evs : List Ev) (x : String) (c : Call)
+    (h : c ∈ callsOn (run s evs) x) :
+    c ∈ callsOn s x ∨ (c.chain = x ∧ ∃ j, j ∈ (run s evs).jobs ∧ c.fromJob j) := by
+  rw [calls_track_results, List.mem_append] at h
+  rcases h with h | h
+  · exact Or.inl h
+  · right
+    obtain ⟨hmem, hx⟩ := mem_enqueuedOn.mp h
+    obtain ⟨pre, e, post, rfl, hr⟩ := mem_results.mp hmem
+    obtain ⟨_, id, _, _, j, _, _, _, hj, hfrom, _⟩ := every_enqueued_call_is_the_jobs s pre e post c hr
+    exact ⟨hx, j, (findJob_some_id _ _ _ hj).1, hfrom⟩
+
+/-- **rejected_event_is_noop** ("a failed request enqueues no contract call", all entry points): an event whose
+result is `rejected` — a refused creation, an execution request that fails anywhere (unknown job, payload not
+allowed or unparsable, unknown chain, requester longer than 32 bytes, no relayer / no MEV relayer), a binding
+call with an empty id or payload — leaves the whole state unchanged.
+ASSUMPTION (baseapp / wasmd): a failing message's store branch is discarded; what the keeper did inside the
+branch before failing is characterised by `failure_enqueues_no_call_raw` (never a contract call). -/
+theorem rejected_event_is_noop (s : State) (e : Ev) (h : (stepEv s e).2 = .rejected) : (stepEv s e).1 = s := by
+  have ofCall_rej : ∀ o : Option Call, Res.ofCall o = .rejected → o = none := by
+    intro o ho; cases o <;> simp_all [Res.ofCall]
+  cases e with
+  | endBlock => simp [stepEv] at h
+  | op o =>
+    cases o with
+    | create i =>
+      simp only [stepEv, txStep] at h ⊢
+      cases hv : vetJob s.jobs i with
+      | none => simp [create, hv]
+      | some j => simp [create, hv] at h
+    | exec id sup caller => exact exec_none s id sup caller (ofCall_rej _ h)
+    | execWasm addr id b =>
+      simp only [stepEv, txStep] at h ⊢
+      split
+      · rfl
+      · rename_i hc
+        rw [if_neg hc] at h
+        exact exec_none s id _ _ (ofCall_rej _ h)
+    | execLegacy addr id b =>
+      simp only [stepEv, txStep] at h ⊢
+      split
+      · rfl
+      · rename_i hc
+        rw [if_neg hc] at h
+        exact exec_none s id _ _ (ofCall_rej _ h)
+    | relay ch on => simp [stepEv, txStep] at h
+    | bump ch mev => simp [stepEv, txStep] at h
+    | publish ch => simp [stepEv, txStep] at h
+
+/-! ### the requester address -/
+
+/-- **requester_address** ("the 32-byte left-padded address of the account or contract that requested the
+execution"), every kind of caller explicitly.  `evm.ExecuteJob` pads `SenderAddress` if it is non-nil, else
+`ContractAddress` if it is non-nil, else NOTHING (an empty byte string, i.e. 32 zero bytes — no error). -/
+theorem requester_address_cases (c : Caller) :
+    (∀ a, c.sender = some a → c.addr = some a ∧ c.bytes = a) ∧
+    (∀ a, c.sender = none → c.contract = some a → c.addr = some a ∧ c.bytes = a) ∧
+    (c.sender = none → c.contract = none →
+      c.addr = none ∧ c.bytes = [] ∧ leftPad32 c.bytes = List.replicate 32 0) := by
+  refine ⟨?_, ?_, ?_⟩
+  · intro a h; simp [Caller.addr, Caller.bytes, h]
+  · intro a h1 h2; simp [Caller.addr, Caller.bytes, h1, h2]
+  · intro h1 h2; simp [Caller.addr, Caller.bytes, h1, h2, leftPad32]
+
+/-- **requester_address**, the message-level entry points.  The callers that `MsgExecuteJob` (account) and the
+two wasm bindings (contract) build — `Caller.entryPoint`: a non-empty SDK address of at most 32 bytes, as sender
+(and, for contracts, as contract address too) — always HAVE a requester address `a`; the padding never fails for
+them; and the 32 injected bytes are `32 − |a|` zero bytes followed by `a`.  The bindings' caller is the contract
+address (`contract_execute`).
+ASSUMPTION (SDK / wasmd): a transaction signer's `GetAccount(creator).GetAddress()` and a contract's address are
+non-empty and at most 32 bytes long. -/
+theorem requester_address_entry_points (c : Caller) (h : c.entryPoint) (p : Bytes) :
+    ∃ a, c.addr = some a ∧ c.bytes = a ∧ c.sender = some a ∧ a ≠ [] ∧ a.length ≤ 32 ∧
+      inject p c.bytes = some (p ++ leftPad32 a) ∧ (leftPad32 a).length = 32 ∧
+      (leftPad32 a).drop (32 - a.length) = a ∧
+      (leftPad32 a).take (32 - a.length) = List.replicate (32 - a.length) 0 := by
+  obtain ⟨a, hne, hlen, hc⟩ := h
+  have hb : c.bytes = a ∧ c.addr = some a ∧ c.sender = some a := by
+    rcases hc with rfl | rfl <;> exact ⟨rfl, rfl, rfl⟩
+  refine ⟨a, hb.2.1, hb.1, hb.2.2, hne, hlen, ?_, leftPad32_length a hlen, ?_, ?_⟩
+  · rw [hb.1]; unfold inject; rw [if_neg (by omega)]
+  · simp [leftPad32]
+  · simp [leftPad32]
+
+/-- **requester_address**, the keeper-level corner.  A successful execution for a caller WITHOUT a requester
+address (both `nil`), or with an empty one, carries 32 zero bytes after the chosen payload: the keeper API does
+not refuse it.  (`anonymous_caller_reachable` below: it does succeed, from a chain start.)  No transaction or
+contract message builds such a caller (`requester_address_entry_points`). -/
+theorem anonymous_caller_gets_zero_suffix (s : State) (id : Bytes) (sup : Supplied) (caller : Caller) (call : Call)
+    (h : (exec s id sup caller).2 = some call) (hanon : caller.addr = none ∨ caller.addr = some []) :
+    ∃ j, findJob s.jobs id = some j ∧ call.payload = chosen j sup ++ List.replicate 32 0 := by
+  obtain ⟨j, hj, _, _, _, hpay, _⟩ := exec_fromJob s id sup caller call h
+  refine ⟨j, hj, ?_⟩
+  have hb : caller.bytes = [] := by
+    unfold Caller.bytes
+    unfold Caller.addr at hanon
+    rcases hanon with h1 | h1 <;> rw [h1] <;> rfl
+  rw [hpay, hb]
+  simp [leftPad32]
+
+/-! ### "(possibly accompanied by a validator-set update for that chain)" -/
+
+/-- **sendValset_spec**: what `SendValsetMsgForChain` does to a queue, exactly.  If no update for the current
+snapshot is queued: every `UpdateValset` message (all of them older) is deleted, the contract calls stay in
+order, and one `UpdateValset` for the current snapshot is appended.  If one is queued: the `UpdateValset`
+messages in front of the first such message are deleted, nothing is appended, the rest of the queue is as it was. -/
+theorem sendValset_spec (snap : Nat) (q : List QMsg) :
+    (QMsg.valset snap ∉ q → sendValset snap q = q.filter QMsg.isCall ++ [.valset snap]) ∧
+    (QMsg.valset snap ∈ q → ∃ a b, q = a ++ QMsg.valset snap :: b ∧ QMsg.valset snap ∉ a ∧
+        sendValset snap q = a.filter QMsg.isCall ++ QMsg.valset snap :: b) ∧
+    calls (sendValset snap q) = calls q :=
+  ⟨(sendValset_exact snap q).1, (sendValset_exact snap q).2, calls_sendValset snap q⟩
+
+/-- **accompanying_valset_characterised** ("enqueues exactly one contract-call message on the job's target chain
+(possibly accompanied by a validator-set update for that chain)").  A successful execution request changes the
+queue of the job's chain — and of no other chain (`success_enqueues_exactly_one_call`) — as follows.
+
+* If the chain is not stale (the snapshot published on it is the current one, or none was ever published, or the
+  chain is not active): the queue is the old queue plus the one call at the end.  Nothing else.
+* If the chain is stale (active, a snapshot `k ≠` current is published on it): the queue is
+  `sendValset current old` (see `sendValset_spec`) plus the one call at the end.  So an `UpdateValset` for the
+  CURRENT snapshot is in the queue in front of the call; every message of the new queue is an old message, that
+  update, or the call; and the only messages that disappeared are `UpdateValset`s for OTHER (superseded)
+  snapshots — the accompaniment may DELETE older validator-set updates, never a contract call.
+* In both cases the contract calls are the old ones, in order, plus the new one. -/
+theorem accompanying_valset_characterised (s : State) (id : Bytes) (sup : Supplied) (caller : Caller) (call : Call)
+    (h : (exec s id sup caller).2 = some call) :
+    ∃ j c c', findJob s.jobs id = some j ∧ s.chain j.chain = some c ∧
+      (exec s id sup caller).1.chain j.chain = some c' ∧ s.snap ≠ 0 ∧ c.relay = true ∧
+      (¬ ((∃ k, c.onChain = some k ∧ k ≠ s.snap) ∧ c.active = true) → c'.queue = c.queue ++ [.call call]) ∧
+      (((∃ k, c.onChain = some k ∧ k ≠ s.snap) ∧ c.active = true) →
+        c'.queue = sendValset s.snap c.queue ++ [.call call] ∧
+        QMsg.valset s.snap ∈ c'.queue ∧
+        (∀ m ∈ c'.queue, m ∈ c.queue ∨ m = .valset s.snap ∨ m = .call call) ∧
+        (∀ m ∈ c.queue, m ∈ c'.queue ∨ ∃ k, m = .valset k ∧ k ≠ s.snap)) ∧
+      calls c'.queue = calls c.queue ++ [call] := by
+  obtain ⟨j, c, p, hj, hc, _, _, _, hpick, _, hst⟩ := exec_some s id sup caller call h
+  have hpk : s.snap ≠ 0 ∧ c.relay = true := by
+    simp only [pick, Bool.and_eq_true, bne_iff_ne, ne_eq] at hpick
+    exact ⟨hpick.1.1, hpick.1.2⟩
+  have hpf : pick s.snap c false = true := by simp [pick, hpk.1, hpk.2]
+  refine ⟨j, c, pushCall (jit s.snap c).1 call, hj, hc, by rw [hst]; simp [upd], hpk.1, hpk.2, ?_, ?_, ?_⟩
+  · intro hns
+    have : (jit s.snap c).1.queue = c.queue := by
+      rw [jit_queue, if_neg]
+      intro hh; exact hns ⟨hh.2.1, hh.2.2.1⟩
+    simp [pushCall, this]
+  · intro hst'
+    have hq : (jit s.snap c).1.queue = sendValset s.snap c.queue := by
+      rw [jit_queue, if_pos ⟨hpk.1, hst'.1, hst'.2, hpf⟩]
+    obtain ⟨m1, m2, m3⟩ := sendValset_mem s.snap c.queue
+    refine ⟨by simp [pushCall, hq], by simp [pushCall, hq, m1], ?_, ?_⟩
+    · intro m hm
+      simp only [pushCall, hq, List.mem_append, List.mem_singleton] at hm
+      rcases hm with hm | hm
+      · rcases m2 m hm with h1 | h1
+        · exact Or.inl h1
+        · exact Or.inr (Or.inl h1)
+      · exact Or.inr (Or.inr hm)
+    · intro m hm
+      rcases m3 m hm with h1 | h1
+      · left; simp [pushCall, hq, h1]
+      · exact Or.inr h1
+  · simp [pushCall, calls_append, calls, jit_calls]
+
 /-! ### non-vacuity -/
 
 def exJob : Job :=
@@ -722,5 +1203,73 @@ example : idValid [112, 97, 108, 111, 109, 97] = false ∧ idValid [74] = false 
 example : inject [] [0, 1] = inject [] [1] := by decide
 example : sendValset 4 [.valset 2, .valset 3] = [.valset 4] ∧ sendValset 4 [.valset 2, .valset 4, .valset 3] =
     [.valset 4, .valset 3] := by decide
+
+/-! ### non-vacuity through `run` from a chain start -/
+
+/-- chain start: one active chain with relayers, snapshot 3 published, current snapshot 4, an old valset update
+and nothing else queued -/
+def exInit : State :=
+  State.init ["test-chain"] ⟨fun n => if n = "test-chain" then some exChain else none⟩ 4
+
+def exFixed : CreateIn :=
+  { owner := [7], id := [102], chainType := "evm", chain := "test-chain", defn := some ([0xc0], [0xab]),
+    payload := some [1, 2], modifiable := false, mev := false }
+
+def exMod : CreateIn := { exFixed with id := [109], modifiable := true }
+
+def exAcct : Caller := Caller.account (List.replicate 20 0xaa)
+
+/-- 0 = ok, 1 = enqueued, 2 = rejected -/
+def Res.tag : Res → Nat
+  | .ok => 0
+  | .enqueued _ => 1
+  | .rejected => 2
+
+def exHistory : List Ev :=
+  [ .op (.create exFixed), .op (.create exMod),
+    .op (.create { exFixed with owner := [8], payload := some [9] }),   -- duplicate id: rejected
+    .op (.exec [102] .absent exAcct),                                   -- fixed job, nothing supplied: stored payload
+    .op (.exec [102] (.bytes [5]) exAcct),                              -- fixed job, payload supplied: cannotModify
+    .op (.exec [109] (.bytes [5]) exAcct),                              -- modifiable job: supplied payload
+    .op (.execWasm (List.replicate 32 0xcc) [109] [6]),                 -- a contract
+    .op (.execWasm (List.replicate 32 0xcc) [102] [6]),                 -- a contract can never run a fixed job
+    .endBlock,
+    .op (.relay "test-chain" false),
+    .op (.exec [102] .absent exAcct),                                   -- fails at relayer selection
+    .op (.relay "test-chain" true),
+    .op (.exec [102] .absent exAcct),
+    .op (.exec [77] .absent exAcct) ]                                   -- unknown job
+
+example : (results exInit exHistory).map Res.tag = [0, 0, 2, 1, 2, 1, 1, 2, 0, 0, 2, 0, 1, 2] := by decide
+example : (findJob (run exInit (exHistory.take 2)).jobs [102]).map (fun j => cannotModify j (.bytes [5])) = some true := by
+  decide
+/-- the queue at the end: the stale valset update was replaced by the current one at the first execution, then
+four calls; payloads = chosen payload ++ 12 zero bytes ++ 20-byte account, resp. ++ 32-byte contract -/
+example : ((run exInit exHistory).chain "test-chain").map (fun c => c.queue.map QMsg.isCall) =
+    some [false, true, true, true, true] := by decide
+example : (callsOn (run exInit exHistory) "test-chain").map (·.payload) =
+    [ [1, 2] ++ List.replicate 12 0 ++ List.replicate 20 0xaa,
+      [5] ++ List.replicate 12 0 ++ List.replicate 20 0xaa,
+      [6] ++ List.replicate 32 0xcc,
+      [1, 2] ++ List.replicate 12 0 ++ List.replicate 20 0xaa ] := by decide
+example : ((run exInit exHistory).chain "test-chain").map (fun c => c.queue.head?) = some (some (.valset 4)) := by
+  decide
+example : (run exInit exHistory).jobs.map (·.owner) = [[7], [7]] := by decide
+example : exAcct.entryPoint := ⟨List.replicate 20 0xaa, by decide, by decide, Or.inl rfl⟩
+/-- the stale branch and the non-stale branch of `accompanying_valset_characterised` are both reachable -/
+example : ((∃ k, exChain.onChain = some k ∧ k ≠ exInit.snap) ∧ exChain.active = true) :=
+  ⟨⟨3, rfl, by decide⟩, rfl⟩
+example : (((run exInit (exHistory.take 4)).chain "test-chain").map (·.onChain)) = some (some 3) ∧
+    (((run exInit (exHistory.take 4)).chain "test-chain").map (·.queue.length)) = some 2 ∧
+    (((run exInit (exHistory.take 6)).chain "test-chain").map (·.queue.length)) = some 3 := by decide
+
+/-- **requester_address**, the keeper-level corner is reachable: from a chain start, after creating the fixed job,
+`Keeper.ExecuteJob` with `senderAddress = nil`, `contractAddr = nil` (and likewise with an empty non-nil sender)
+SUCCEEDS and enqueues the stored payload followed by 32 zero bytes. -/
+theorem anonymous_caller_reachable :
+    ((exec (run exInit [.op (.create exFixed)]) [102] .absent ⟨none, none⟩).2.map (·.payload)) =
+      some ([1, 2] ++ List.replicate 32 0) ∧
+    ((exec (run exInit [.op (.create exFixed)]) [102] .absent ⟨some [], none⟩).2.map (·.payload)) =
+      some ([1, 2] ++ List.replicate 32 0) := by decide
 
 end Paloma.Scheduler
